@@ -455,6 +455,14 @@ func (s context) exec(c *Ctx, cs ctxCase) *expectation {
 	want := drive.ModelLines(ex.want)
 	rc := drive.ReadCase{Data: out.Bytes, Plan: cs.Plan, Prog: drive.Full, Catalog: cs.Catalog, SimCatalog: cs.SimCatalog, KeepMaxID: true}
 	oc := drive.RunRead(rc)
+	// the symbol-context model says nothing about the reader's answers between StepOut and Next (that is C08's matter)
+	kept := oc.Lines[:0:0]
+	for _, l := range oc.Lines {
+		if !strings.HasPrefix(l, "after-stepout:") {
+			kept = append(kept, l)
+		}
+	}
+	oc.Lines = kept
 	c.Steps += int64(oc.Reads)
 	c.Count("ctx.runs", 1)
 	if ex.nontriv {
